@@ -14,6 +14,10 @@
 // its former parent (same pre_order value sequence, different shape => unequal), then moved back (=> equal again).
 // For every tree built here pre_order, to_root, level, depth, child_position and map are compared with the shape table
 // as well (h_shape_traversals; cheap, the shapes are concrete).
+// h_map_order: tree::map with a STATEFUL callback (numbers its calls, logs its arguments) on every catalogue shape - the
+// function is applied in pre-order; every path model is replayed against the native g++ build (validate >= paths), which
+// catches compiler-dependent evaluation order.  h_sort_pred: sort(predicate) hands the predicate only references to the
+// values stored in two different children; result sorted, same child nodes, links kept.
 // Bounds: shapes with at most 5 nodes (catalogue below).  Outside the claim: as in C09_tree.cpp.
 //@property C09
 #include "verif_api.h"
@@ -344,7 +348,107 @@ VERIF_HARNESS(h_shape_traversals)
   verif_reach("shape-traversals-end");
 }
 
+// tree::map applies the function in PRE-ORDER (a node's value before its children, children left to right): a stateful
+// callback numbers its calls and logs its arguments; the mapped tree must carry 0,1,2,... in pre-order and the logged
+// arguments must be the values in pre-order.  (The order of evaluation inside map's result construction is compiler
+// dependent if it is written with parentheses instead of braces: every path model of this harness is replayed against
+// the native g++ build - validate >= number of paths - where the same assertions run.)
+VERIF_HARNESS(h_map_order)
+{
+  unsigned const si = static_cast<unsigned>(verif_param("shape"));
+  shape const &S = catalogue[si];
+  int v[MAXN];
+  fresh_values(v, S.n);
+  built const b = build(S, v, pick("how", 2));
+  unsigned calls = 0;
+  int seen[2 * MAXN];
+  unsigned *const pc = &calls;
+  int *const ps = seen;
+  utree const m = fcppt::container::tree::map<utree>(*b.root, [pc, ps](int const &x) {
+    if (*pc < 2 * MAXN) ps[*pc] = x;
+    return static_cast<std::uint16_t>((*pc)++);
+  });
+  verif_assert(calls == S.n, "map calls the function once per node");
+  for (unsigned i = 0; i < S.n && i < calls; ++i) verif_assert(seen[i] == v[i], "map visits the values in pre-order");
+  {
+    // nodes of the catalogue are numbered in pre-order: mapped node number i must carry call number i
+    unsigned k = 0;
+    for (utree const &a : fcppt::container::tree::make_pre_order(m))
+    {
+      verif_assert(a.value() == k, "the k-th node of the mapped tree in pre-order got the k-th call");
+      verif_assert(k < S.n && a.size() == nchildren(S, k), "mapped tree has the shape of the source");
+      ++k;
+    }
+    verif_assert(k == S.n, "mapped tree has as many nodes as the source");
+  }
+  verif_out("shape", si);
+  verif_out("calls", calls);
+  verif_out("values", preorder_sum(*b.root));
+  delete b.root;
+  verif_reach("map-order-end");
+}
+
+// sort(predicate): the predicate is only ever handed the values stored in the children of that node (by reference to
+// the live nodes, no copies), the result is sorted w.r.t. it, and the other nodes are untouched
+VERIF_HARNESS(h_sort_pred)
+{
+  unsigned const si = static_cast<unsigned>(verif_param("shape"));
+  shape const &S = catalogue[si];
+  int v[MAXN];
+  fresh_values(v, S.n);
+  built const b = build(S, v, 0);
+  tree &root = *b.root;
+  unsigned const n = nchildren(S, 0);
+  unsigned calls = 0, foreign = 0;
+  unsigned *const pc = &calls, *const pf = &foreign;
+  // addresses of the children's values before the sort (during std::list::sort the nodes are temporarily spliced out of
+  // the child list, so the list itself cannot be consulted from inside the predicate)
+  int const *slot[MAXN];
+  for (unsigned k = 0; k < n; ++k) slot[k] = &b.node[child(S, 0, k)]->value();
+  int const *const *const psl = slot;
+  root.sort([pc, pf, psl, n](int const &x, int const &y) {
+    ++*pc;
+    bool fx = false, fy = false;
+    for (unsigned k = 0; k < n; ++k)
+    {
+      if (psl[k] == &x) fx = true;
+      if (psl[k] == &y) fy = true;
+    }
+    if (!fx || !fy || &x == &y) ++*pf;
+    return x < y;
+  });
+  verif_assert(foreign == 0, "sort's predicate is called on the values stored in two different children, by reference");
+  verif_assert(calls >= n - 1 && calls <= n * n, "sort calls the predicate at least n-1 times");
+  verif_assert(root.size() == n && root.value() == v[0], "sort keeps the node and the number of children");
+  {
+    tree::const_iterator it = root.begin();
+    for (unsigned k = 0; k + 1 < n; ++k)
+    {
+      int const x = it->value();
+      ++it;
+      verif_assert(!(it->value() < x), "children are sorted w.r.t. the predicate");
+    }
+    for (tree const &c : root)
+    {
+      unsigned found = NONE;
+      for (unsigned k = 0; k < n; ++k)
+        if (b.node[child(S, 0, k)] == &c) found = k;
+      verif_assert(found != NONE, "sort permutes the same child nodes");
+      unsigned const ci = child(S, 0, found);
+      verif_assert(c.value() == v[ci] && c.size() == nchildren(S, ci), "sorted children keep value and children");
+      verif_assert(c.parent().has_value() && &c.parent().get_unsafe().get() == &root, "sorted children keep their parent");
+    }
+  }
+  verif_out("shape", si);
+  verif_out("calls", calls);
+  delete b.root;
+  verif_reach("sort-pred-end");
+}
+
 // param how_a = operation order of the left operand (partitions the choice for parallelism)
 //@harness h_cmp_shapes param mode=0..2 param how_a=0..2 tier=quick loop=70 leak=1
 //@harness h_cmp_reinsert tier=quick loop=70 leak=1
 //@harness h_shape_traversals tier=quick loop=70 leak=1
+// <= 3 resp. <= 6 paths per instance, every path model replayed natively (validate >= paths)
+//@harness h_map_order param shape=0..7 tier=quick loop=70 leak=1 validate=12
+//@harness h_sort_pred param shape=1,5,6 tier=quick loop=70 leak=1 validate=12
